@@ -172,9 +172,16 @@ func (c *consumer) look(m hub.Message, t *tap, log *[]evLog, at int) {
 }
 
 // act: what the consumer does between two bursts (final = the stream is over: look at everything)
-func (c *consumer) act(t *tap, log *[]evLog, final bool) {
+func (c *consumer) act(t *tap, log *[]evLog, final bool) (raced bool) {
 	t.sync()
 	at, _, _ := t.state()
+	defer func() {
+		// a hand-off that arrives while the consumer is acting cannot be ordered against its actions
+		t.sync()
+		if now, _, _ := t.state(); now != at {
+			raced = true
+		}
+	}()
 	hold := c.spec.Hold
 	if final {
 		hold = 0
@@ -188,11 +195,12 @@ func (c *consumer) act(t *tap, log *[]evLog, final bool) {
 			c.look(c.hand[0], t, log, at)
 			c.hand = c.hand[1:]
 		}
-		return
+		return false
 	}
 	for len(c.cl.Send) > hold {
 		c.look(<-c.cl.Send, t, log, at)
 	}
+	return false
 }
 
 func (c *consumer) finish() {
@@ -303,6 +311,12 @@ func runHubStream(s *Stream) {
 	h.barrier()
 	input := genBytes(s.Seed, 0, s.total())
 	var log []evLog
+	raced := false
+	defer func() {
+		if raced {
+			o.Raced = "a hand-off arrived while a consumer was acting (late flush): its order against the consumer's actions is unknown"
+		}
+	}()
 
 	var write func(b []byte) error
 	var closeIn func()
@@ -358,14 +372,18 @@ func runHubStream(s *Stream) {
 		time.Sleep(time.Duration(b.PauseMs) * time.Millisecond)
 		h.barrier()
 		for _, c := range cons {
-			c.act(t, &log, false)
+			if c.act(t, &log, false) {
+				raced = true
+			}
 		}
 	}
 	o.Posted = off
 	time.Sleep(5 * time.Millisecond)
 	h.barrier()
 	for _, c := range cons {
-		c.act(t, &log, true)
+		if c.act(t, &log, true) {
+			raced = true
+		}
 	}
 	closeIn()
 	close(t.stop)
